@@ -5,10 +5,12 @@
     in the lookup and is shown under exactly that name, also in the form the directory reader returns it
     (C15_long_name_found); appended to ANY directory in which the name was not found it is found (C15_found_in_extended);
     and what the reader returns can be written again and read again unchanged (C15_stable), so the name survives every
-    later rewrite of its directory.  Alias uniqueness and the short-name (OEM code page) side are checked on the
-    implementation for every length and code page. *)
+    later rewrite of its directory.  The short alias generated for ANY name in ANY directory is not one of the short names
+    already there, keeps a stem whenever the name has a usable character, is never the "extension only" form that
+    set_str_name rejects (D37: ' .a' could not be created) and fits 8 + 3 bytes (C15_alias).  The OEM code page side
+    (str.upper, codecs) is checked on the implementation for every length and code page. *)
 From Coq Require Import ZArith List Bool Sorted.
-From PyFatV Require Import Base.Bytes Base.PyEnv Gen.Pure Model.Codec Model.Dir Proofs.Names Proofs.DirCodec.
+From PyFatV Require Import Base.Bytes Base.PyEnv Gen.Pure Model.Codec Model.Dir Proofs.Names Proofs.DirCodec Proofs.Alias.
 Import ListNotations.
 Open Scope Z_scope.
 
@@ -37,3 +39,17 @@ Theorem C15_stable : forall es k f, Forall entry_ok es -> (0 < k)%nat ->
   scan_slots (nslots_dir es + S f) (ser_dir (map canon es) ++ repeat 0 (32 * k)) [] [] = Ok (map canon es, [], true).
 Proof. exact read_write_read_stable. Qed.
 Print Assumptions C15_stable.
+
+Theorem C15_alias : forall n es b e, make_8dot3 n es = Ok (b, e) ->
+  existsb (list_eqb (join_ext b e)) (taken_of es) = false /\
+  (map_chars (n_base n) <> [] \/ map_chars (n_ext n) <> [] -> b <> []) /\
+  (b = [] -> e = []) /\
+  (lenZ (n_base n) <= 8 -> lenZ (n_ext n) <= 3 -> lenZ b <= 8 /\ lenZ e <= 3).
+Proof. exact alias_spec. Qed.
+Print Assumptions C15_alias.
+(* ' .a' (stem of spaces only): the alias is A, and A~1 when A is taken *)
+Example C15_alias_ext_only :
+  make_8dot3 (mkName [32;46;97] (Some [32;46;97]) (Some [32;46;65]) [] [65] false) [] = Ok ([65], []) /\
+  make_8dot3 (mkName [32;46;97] (Some [32;46;97]) (Some [32;46;65]) [] [65] false)
+             [mkDirent [65;32;32;32;32;32;32;32;32;32;32] 32 0 0 0 0 0 0 0 0 0 0 None] = Ok ([65;126;49], []).
+Proof. vm_compute. split; reflexivity. Qed.
